@@ -1132,6 +1132,12 @@ def history_stage(ctx, n, stop_at_first=False, rng=None):
 def search(ctx, budget_s):
     t0 = time.time()
     rng = random.Random(ctx.seed + 4242)
+    # discrete_birth_death_tree first (cheap): scripted cases through its oracle
+    from dv import c18_disc
+    before_d = len(ctx.violations)
+    c18_disc.search(ctx, min(15, budget_s * 0.2))
+    if len(ctx.violations) > before_d:
+        return
     # histories first: state left behind by earlier public calls in the same session
     before = len(ctx.violations)
     nh, _bad = history_stage(ctx, 48 if ctx.tier == "quick" else 200, rng=random.Random(ctx.seed + 99))
@@ -1194,6 +1200,7 @@ def run(tier, seed, replay=None):
         "translator tie: the meaning of the Python primitives (rng methods as typed draws, lists, value nodes of the gene tree, loops, None) is coq/Model/C18Prims.v; loop fuel is the model's",
         "exact arithmetic: draws are dyadic so binary64 is exact on the compared runs; rounding of tip heights with real draws is outside the model (real seeds are checked to 1e-9 relative by the oracle only)",
         "birth_death_tree: tip-count stopping rule, no GSA, extinct tips pruned, taxa assigned (the defaults); max_time / num_extinct_tips / num_total_tips / gsa_ntax / is_retain_extinct_tips / tree= not modelled",
+        "discrete_birth_death_tree: ntax / max_time / taxon_namespace / repeat_until_success are parameters of the model (coq/Model/C18DiscModel.v, proved to be the generated code); tree= / assign_taxa=False not modelled; Tree.randomly_assign_taxa is a hand-transcribed primitive (coq/Model/C18DiscPrims.v) tied by the correspondence run only; rng.uniform(0, 1) is the model's unit draw",
         "draws on which binary64 rounding of the normalised event weights decides a comparison that is an exact tie in rational arithmetic are detected and not compared",
         "iteration order of TaxonNamespaceMapping.reverse sets (Taxon hashed by id()) is an input of the contained-coalescent model",
     ]
@@ -1201,10 +1208,16 @@ def run(tier, seed, replay=None):
         r = json.load(open(replay))["replay"]
         if "history" in r:
             print("oracle:", history_oracle(r))
-        elif "case" in r:
+        elif "case" in r and r["case"].get("sim") != "disc":
             obs = _observe(r["case"])
             print("observed:", json.dumps(obs, default=str)[:3000])
             print("oracle:", oracle(r["case"], obs))
+        elif "disc_case" in r or ("case" in r and r["case"].get("sim") == "disc"):
+            from dv import c18_disc
+            c = r.get("disc_case") or r["case"]
+            obs = c18_disc._observe(c)
+            print("observed:", json.dumps(obs, default=str)[:3000])
+            print("oracle:", c18_disc.oracle(c, obs))
         elif "seed_case" in r:
             print("oracle:", seed_oracle(r["seed_case"], r["seed"]))
         elif "probe" in r:
@@ -1288,6 +1301,17 @@ def run(tier, seed, replay=None):
                     nontrivial=nontrivial, search=search, shard=60 if tier == "quick" else 250,
                     sample_fn=lambda c, o: {"case": {k: v for k, v in c.items() if k != "species"}, "draws": len(o["script"]),
                                             "leaves": len(t_leaves(o["out"][1])) if o["out"][0] == "tree" else None})
+    # discrete_birth_death_tree: its own model (Model/C18DiscModel.v = the generated code), options as parameters
+    from dv import c18_disc
+    dcases = c18_disc.cases(ctx, tier)
+    core.corr_stage(ctx, dcases, c18_disc.observe, c18_disc.to_coq, c18_disc.HEADER, "dcase_ok", oracle=c18_disc.oracle,
+                    show_fn="dcase_run", nontrivial=c18_disc.nontrivial, search=c18_disc.search,
+                    shard=60 if tier == "quick" else 250, label="discrete_birth_death_tree correspondence",
+                    sample_fn=lambda c, o: {"case": c, "draws": len(o["script"]),
+                                            "leaves": len(t_leaves(o["out"][1])) if o["out"][0] == "tree" else None})
+    c18_disc.seeds_stage(ctx, 140 if tier == "quick" else 2800)
+    for k, what in sorted(c18_disc.PENDING.items()):
+        ctx.notes.append("observation outside the property text (modelled, accepted by the oracle) %s: %s" % (k, what))
     seeds_stage(ctx, 200 if tier == "quick" else 10000, 45 if tier == "quick" else 600)
     nh, nbad = history_stage(ctx, 16 if tier == "quick" else 160)
     ctx.obligation("session histories: %d (polluting public calls first, then the simulator under test on a scripted "
